@@ -55,6 +55,7 @@ func (x *FnExec) call(in ssa.Instruction, c *ssa.CallCommon, st *State) (Val, bo
 		}
 		calleeName = "(" + typeKey(c.Value.Type()) + ")." + c.Method.Name()
 		x.curArgs = args
+		x.regionEscapeAtCall(c, calleeName, sig, args)
 		x.checkCallAsserts(calleeName, args, sigParamTypes(sig, c.Value.Type()), st)
 		if con := x.eng.cs.Funcs[calleeName]; con != nil {
 			res := x.applyContractSig(in, con, calleeName, sig, c.Value.Type(), args, st)
@@ -92,6 +93,9 @@ func (x *FnExec) call(in ssa.Instruction, c *ssa.CallCommon, st *State) (Val, bo
 		bindings = mc.Bindings
 	}
 	x.curBindings = bindings
+	if callee == nil && len(x.prov) > 0 {
+		x.regionEscapeAtCall(c, "", sig, args)
+	}
 	if callee == nil {
 		// a function value returned by a contracted function: contract "<callee>#<result index>"
 		if ex, ok := c.Value.(*ssa.Extract); ok {
@@ -117,6 +121,7 @@ func (x *FnExec) call(in ssa.Instruction, c *ssa.CallCommon, st *State) (Val, bo
 		}
 	}
 	if callee == nil {
+		x.regionEscapeAtCall(c, "", sig, args)
 		// call of a function value
 		if mc, ok := c.Value.(*ssa.MakeClosure); ok {
 			callee = mc.Fn.(*ssa.Function)
@@ -153,6 +158,7 @@ func (x *FnExec) call(in ssa.Instruction, c *ssa.CallCommon, st *State) (Val, bo
 			}
 		}
 	}
+	x.regionEscapeAtCall(c, calleeName, sig, args)
 	if con != nil {
 		return x.applyContractSig(in, con, calleeName, sig, nil, args, st), true
 	}
@@ -172,10 +178,43 @@ func (x *FnExec) call(in ssa.Instruction, c *ssa.CallCommon, st *State) (Val, bo
 	return x.unknownCall(sig, st, calleeName), true
 }
 
+// regionEscapeAtCall: which owned result graphs stop being exclusively ours at this call. A
+// callee under a precise modifies clause whose results hold no addresses can neither write
+// nor retain them; otherwise a pointer to pointer-free cells exposes only those cells and any
+// other pointer into a graph gives the graph up.
+func (x *FnExec) regionEscapeAtCall(c *ssa.CallCommon, name string, sig *types.Signature, args []Val) {
+	if len(x.prov) == 0 {
+		return
+	}
+	con := x.eng.cs.Funcs[name]
+	if con != nil && !con.ModAll && resultsPointerFree(x.mem, sig) {
+		return
+	}
+	if con == nil && name != "" && x.eng.isPureDep(name) && resultsPointerFree(x.mem, sig) {
+		return
+	}
+	var ts []types.Type
+	if c.IsInvoke() {
+		ts = append(ts, c.Value.Type())
+	}
+	for _, a := range c.Args {
+		ts = append(ts, a.Type())
+	}
+	for i, a := range args {
+		if i < len(ts) {
+			x.regionEscapeTyped(a, ts[i])
+		} else {
+			x.noteEscape(a)
+		}
+	}
+}
+
 func (x *FnExec) unknownCall(sig *types.Signature, st *State, name string) Val {
+	x.inTypedArgs = true
 	for _, a := range x.curArgs {
 		x.noteEscape(a)
 	}
+	x.inTypedArgs = false
 	// may panic
 	pb := x.ctx.Fresh("panics", SBool)
 	ps := st.clone()
@@ -336,9 +375,11 @@ func (x *FnExec) applyContractSig(in ssa.Instruction, con *Contract, calleeName 
 	}
 	doHavoc := func(s *State) {
 		if con.ModAll {
+			x.inTypedArgs = true
 			for _, a := range args {
 				x.noteEscape(a)
 			}
+			x.inTypedArgs = false
 			x.havocAllG(s, len(con.Modifies) == 0)
 			for _, m := range con.Modifies {
 				x.havocLoc(envPre, s, m)
@@ -406,6 +447,46 @@ func (x *FnExec) applyContractSig(in ssa.Instruction, con *Contract, calleeName 
 func (x *FnExec) collectFresh(e CExpr, env *Env, newAlloc Term, out *[]Term) {
 	switch e := e.(type) {
 	case *CCall:
+		if e.Fn == "owned" {
+			// owned(p): p and everything reachable from it was allocated by the callee
+			tv := env.Eval(e.Args[0])
+			r := &ownedRegion{base: env.alloc0, end: newAlloc, graph: true, skipKeys: map[string]bool{}}
+			x.ownedRegions = append(x.ownedRegions, r)
+			if x.prov == nil {
+				x.prov = map[Term]*ownedRegion{}
+			}
+			if tv.T != nil {
+				*out = append(*out, x.regionShapeTerms(tv.V, tv.T, r)...)
+			}
+			// closure: addresses stored in the graph's cells are nil or refer to whole objects inside the graph
+			heapOf := func(k string) (Term, bool) {
+				if h, ok := env.heaps[k]; ok {
+					return h, true
+				}
+				if _, seen := x.heapBool[k]; seen {
+					return x.initHeap(k, false), true
+				}
+				return "", false
+			}
+			for _, k := range sortedKeys(x.mem.PtrKeys) {
+				h, ok := heapOf(k)
+				if !ok {
+					continue
+				}
+				upper := "(select " + h + " a)"
+				if el, ok := x.mem.PtrElem[k]; ok {
+					if strings.HasSuffix(k, "#ptr") {
+						if hc, ok := heapOf(strings.TrimSuffix(k, "#ptr") + "#cap"); ok {
+							upper = Add(upper, Mul("(select "+hc+" (+ a 2))", Lit(int64(x.mem.Size(el)))))
+						}
+					} else {
+						upper = Add(upper, Lit(int64(x.mem.Size(el))))
+					}
+				}
+				*out = append(*out, fmt.Sprintf("(forall ((a Int)) (! (=> (and (<= %s a) (< a %s)) (or (= (select %s a) 0) (and (<= %s (select %s a)) (<= %s %s)))) :pattern ((select %s a))))", r.base, r.end, h, r.base, h, upper, r.end, h))
+			}
+			x.ctx.Note("assumed: the callee's result (owned) and everything reachable from it are new allocations not shared with anything else")
+		}
 		if e.Fn == "fresh" {
 			tv := env.Eval(e.Args[0])
 			t := env.scalar(tv, "fresh")
@@ -591,6 +672,11 @@ func (x *FnExec) appendOp(c *ssa.CallCommon, st *State) Val {
 		return x.freshVal("app", t, true)
 	}
 	add = x.value(c.Args[1])
+	if len(x.prov) > 0 {
+		// the result may alias either operand under a new term
+		x.noteEscape(s)
+		x.noteEscape(add)
+	}
 	sz := x.mem.Size(sl.Elem())
 	k := add.F[1].T
 	newLen := Add(s.F[1].T, k)
